@@ -175,7 +175,8 @@ def overlapping_fields(rng, sv, doc):
     """two fields with one response name that cannot be merged"""
     d = copy.deepcopy(doc)
     p = Pos(sv, d)
-    variants = ["direct", "inline", "spread", "nested", "args", "types", "nested-spread"]
+    variants = ["direct", "inline", "spread", "nested", "args", "types", "nested-spread", "nested-fragment-vs-direct",
+                "nested-fragment-vs-direct"]
     rng.shuffle(variants)
     for v in variants:
         objlists = [(l, par, df, depth) for l, par, df, depth in p.lists if par and sv.kind(par) in ("object", "interface")
@@ -242,6 +243,24 @@ def overlapping_fields(rng, sv, doc):
                     l.insert(rng.randint(0, len(l)), mk_field(f, alias="zc", args=a1))
                     l.insert(rng.randint(0, len(l)), mk_field(f, alias="zc", args=a2))
                     return d, feat
+            if v == "nested-fragment-vs-direct":
+                # zo: f { ...Zx }   zo: f { zc: g2 }   fragment Zx on T { zc: g1 }   (both selection orders)
+                comp = [f for f in sv.fields(par) if sv.kind(gs.ty_base(f["type"])) in ("object", "interface")
+                        and not f.get("args")]
+                for f in comp:
+                    t = gs.ty_base(f["type"])
+                    inner = leaf_field(sv, t, lambda g: not g.get("args"))
+                    if len(inner) >= 2:
+                        g1, g2 = rng.sample(inner, 2)
+                        name = rng.choice(["Zx", "Y"])
+                        a = mk_field(f, alias="zo", sels=[{"k": "spread", "name": name, "dirs": []}])
+                        b = mk_field(f, alias="zo", sels=[mk_field(g2, alias="zc")])
+                        first_frag = rng.random() < 0.5
+                        i = rng.randint(0, len(l))
+                        l[i:i] = [a, b] if first_frag else [b, a]
+                        d["defs"].insert(rng.randint(0, len(d["defs"])),
+                                         {"k": "frag", "name": name, "on": t, "dirs": [], "sels": [mk_field(g1, alias="zc")]})
+                        return d, "nested-" + ("fragment-first-direct-second" if first_frag else "direct-first-fragment-second")
             if v == "nested":
                 comp = [f for f in sv.fields(par) if sv.kind(gs.ty_base(f["type"])) in ("object", "interface")
                         and not f.get("args")]
@@ -882,6 +901,106 @@ def _ops_reaching(d, df):
     return out
 
 
+def bare_inline_site(rng, sv, d):
+    """(selection list, its parent type): the body of a condition-less inline fragment `... { }` /
+    `... @include(if: true) { }` directly under a field whose type is WRAPPED (list / non-null); created if absent"""
+    p = Pos(sv, d)
+    sites = []
+    for s, par, df, _ in p.fields:
+        f = p.fielddef(s, par)
+        if f and s["sels"] is not None and f["type"][0] in ("list", "nonNull") and sv.is_composite(gs.ty_base(f["type"])):
+            sites.append((s["sels"], gs.ty_base(f["type"])))
+    if not sites:
+        lists = [(l, par, df, depth) for l, par, df, depth in p.lists if par
+                 and not (df["k"] == "op" and df["op"] == "subscription" and depth == 0)]
+        rng.shuffle(lists)
+        for l, par, _, _ in lists:
+            comp = [f for f in sv.fields(par) if f["type"][0] in ("list", "nonNull") and sv.is_composite(gs.ty_base(f["type"]))
+                    and not any(a["type"][0] == "nonNull" and a.get("default") is None for a in f.get("args") or [])]
+            if comp:
+                f = rng.choice(comp)
+                new = mk_field(f, alias="zw", sels=[])
+                l.insert(rng.randint(0, len(l)), new)
+                sites.append((new["sels"], gs.ty_base(f["type"])))
+                break
+    if not sites:
+        return None
+    sels, t = rng.choice(sites)
+    dirs = [] if rng.random() < 0.5 else [{"name": "include", "args": [{"name": "if", "value": ("bool", True)}]}]
+    inner = {"k": "inline", "on": None, "dirs": dirs, "sels": [typename("zt")]}
+    sels.insert(rng.randint(0, len(sels)), inner)
+    return inner["sels"], t
+
+
+def _bare(feature_fn):
+    def fn(rng, sv, doc):
+        d = copy.deepcopy(doc)
+        site = bare_inline_site(rng, sv, d)
+        if site is None:
+            return None
+        l, t = site
+        r = feature_fn(rng, sv, d, l, t)
+        if r is None:
+            return None
+        return d, r + "@bare-inline-under-wrapped-field"
+    return fn
+
+
+def _b_unknown_field(rng, sv, d, l, t):
+    l.insert(rng.randint(0, len(l)), mk_field({"name": "zzUnknown"}, alias="zz1"))
+    return "added-unknown-field-on-" + sv.kind(t)
+
+
+def _b_leaf(rng, sv, d, l, t):
+    comp = [f for f in sv.fields(t) if sv.is_composite(gs.ty_base(f["type"])) and
+            not any(a["type"][0] == "nonNull" and a.get("default") is None for a in f.get("args") or [])]
+    lf = leaf_field(sv, t)
+    if comp and (not lf or rng.random() < 0.5):
+        l.insert(rng.randint(0, len(l)), mk_field(rng.choice(comp), alias="zz1"))
+        return "no-selection-on-composite"
+    if lf:
+        l.insert(rng.randint(0, len(l)), mk_field(rng.choice(lf), alias="zz1", sels=[typename()]))
+        return "selection-on-leaf"
+    return None
+
+
+def _b_unknown_arg(rng, sv, d, l, t):
+    lf = leaf_field(sv, t)
+    if not lf:
+        return None
+    l.insert(rng.randint(0, len(l)), mk_field(rng.choice(lf), alias="zz1", args=[{"name": "zzArg", "value": ("int", "1")}]))
+    return "unknown-argument-on-field"
+
+
+def _b_bad_value(rng, sv, d, l, t):
+    for f in leaf_field(sv, t):
+        for a in f.get("args") or []:
+            r = _bad_literal(rng, sv, a["type"])
+            if r and "list" not in r[1]:
+                l.insert(rng.randint(0, len(l)), mk_field(f, alias="zz1", args=[{"name": a["name"], "value": r[0]}]))
+                return r[1] + "@field-argument"
+    l.insert(rng.randint(0, len(l)), {"k": "field", "alias": "zz1", "name": "__typename", "args": [],
+                                      "dirs": [{"name": "skip", "args": [{"name": "if", "value": ("str", "x")}]}], "sels": None})
+    return "string-for-Boolean@directive-argument"
+
+
+def _b_required(rng, sv, d, l, t):
+    for f in sv.fields(t):
+        if sv.is_leaf(gs.ty_base(f["type"])) and any(a["type"][0] == "nonNull" and a.get("default") is None for a in f.get("args") or []):
+            l.insert(rng.randint(0, len(l)), mk_field(f, alias="zz1"))
+            return "field-without-required-argument"
+    return None
+
+
+def _b_spread(rng, sv, d, l, t):
+    others = [c for c in sv.composites() if not sv.overlap(c, t)]
+    if not others:
+        return None
+    o = rng.choice(others)
+    l.insert(rng.randint(0, len(l)), {"k": "inline", "on": o, "dirs": [], "sels": [typename()]})
+    return "inline-%s-in-%s" % (sv.kind(o), sv.kind(t))
+
+
 INJECTORS = [
     ("executable_definitions", "5.1.1", ["ExecutableDefinitionsChecker"], executable_definitions),
     ("unique_operation_names", "5.2.1.1", ["UniqueOperationNameChecker"], unique_operation_names),
@@ -912,4 +1031,11 @@ INJECTORS = [
     ("all_variable_uses_defined", "5.8.3", ["NoUndefinedVariablesChecker"], all_variable_uses_defined),
     ("all_variables_used", "5.8.4", ["NoUnusedVariablesChecker"], all_variables_used),
     ("all_variable_usages_allowed", "5.8.5", ["VariablesInAllowedPositionChecker"], variable_usages_allowed),
+    # the same rules, violated inside `... { }` under a list / non-null field
+    ("fields_on_correct_type", "5.3.1", ["FieldsOnCorrectTypeChecker"], _bare(_b_unknown_field)),
+    ("leaf_field_selections", "5.3.3", ["ScalarLeafsChecker"], _bare(_b_leaf)),
+    ("known_argument_names", "5.4.1", ["KnownArgumentNamesChecker"], _bare(_b_unknown_arg)),
+    ("values_of_correct_type", "5.6.1", ["ValuesOfCorrectTypeChecker"], _bare(_b_bad_value)),
+    ("provided_required_arguments", "5.4.2.1", ["ProvidedRequiredArgumentsChecker"], _bare(_b_required)),
+    ("possible_fragment_spreads", "5.5.2.3", ["PossibleFragmentSpreadsChecker"], _bare(_b_spread)),
 ]
